@@ -100,7 +100,9 @@ type recording struct {
 	key     string
 	cw      *sinkcluster.ClusterWriter
 	chunks  []map[string]struct{} // chunks[k] = definite members of journal line k
+	maybe   []map[string]struct{} // maybe[k] = addresses handed over before a write that FAILED: the text does not say whether they must survive
 	pending map[string]struct{}
+	pendOpt map[string]struct{}
 	ambigs  []ambig
 	fed     map[string]struct{}
 	adds    int
@@ -108,7 +110,7 @@ type recording struct {
 }
 
 func newRecording(key string, interval time.Duration) *recording {
-	rec := &recording{w: &memWriter{}, key: key, pending: map[string]struct{}{}, fed: map[string]struct{}{}}
+	rec := &recording{w: &memWriter{}, key: key, pending: map[string]struct{}{}, pendOpt: map[string]struct{}{}, fed: map[string]struct{}{}}
 	rec.cw = sinkcluster.NewClusterWriter(rec.w, interval, ipsetsink.NewIPSetSink(key))
 	return rec
 }
@@ -117,6 +119,7 @@ func newRecording(key string, interval time.Duration) *recording {
 // the old writer had not flushed is in no chunk.
 func (rec *recording) restart(interval time.Duration) {
 	rec.pending = map[string]struct{}{}
+	rec.pendOpt = map[string]struct{}{}
 	rec.cw = sinkcluster.NewClusterWriter(rec.w, interval, ipsetsink.NewIPSetSink(rec.key))
 }
 
@@ -125,10 +128,13 @@ func (rec *recording) closePending(newLines int) {
 		rec.odd = true
 	}
 	rec.chunks = append(rec.chunks, rec.pending)
+	rec.maybe = append(rec.maybe, rec.pendOpt)
 	for i := 1; i < newLines; i++ {
 		rec.chunks = append(rec.chunks, map[string]struct{}{})
+		rec.maybe = append(rec.maybe, map[string]struct{}{})
 	}
 	rec.pending = map[string]struct{}{}
+	rec.pendOpt = map[string]struct{}{}
 }
 
 func (rec *recording) add(a string) {
@@ -146,11 +152,21 @@ func (rec *recording) add(a string) {
 }
 
 func (rec *recording) flush() bool {
-	before := rec.w.lines
+	before, fails := rec.w.lines, rec.w.fails
 	rec.cw.WriteIPSetToDisk()
 	if rec.w.lines > before {
 		rec.closePending(rec.w.lines - before)
 		return true
+	}
+	if rec.w.fails > fails {
+		// the write failed and no line appeared. The real writer keeps the
+		// sketch and writes it with the next line; the property text does not
+		// promise that, so these addresses become optional members of the
+		// next line (observed, not demanded).
+		for a := range rec.pending {
+			rec.pendOpt[a] = struct{}{}
+		}
+		rec.pending = map[string]struct{}{}
 	}
 	return false
 }
@@ -405,6 +421,7 @@ type expectation struct {
 	eqDep    bool
 	excl     [][2]int // lo/hi if chunks touching the window's from / to / both exactly were excluded
 	longLine bool     // a line above the scanner limit at or before the last chunk inside
+	anyLong  bool     // a line above the scanner limit anywhere in the journal
 }
 
 func unionSets(rec *recording, inside []int) (def, all map[string]struct{}) {
@@ -421,6 +438,11 @@ func unionSets(rec *recording, inside []int) (def, all map[string]struct{}) {
 	all = map[string]struct{}{}
 	for a := range def {
 		all[a] = struct{}{}
+	}
+	for _, k := range inside {
+		for a := range rec.maybe[k] {
+			all[a] = struct{}{}
+		}
 	}
 	for _, am := range rec.ambigs {
 		a, b := in[am.k], in[am.k+1]
@@ -466,10 +488,14 @@ func expect(rec *recording, lines []jline, w window, ic *idxCache) expectation {
 			ex.excl = append(ex.excl, [2]int{len(d2), len(a2)})
 		}
 	}
+	last := -1
 	if len(ex.inside) > 0 {
-		last := ex.inside[len(ex.inside)-1]
-		for k := 0; k <= last; k++ {
-			if len(lines[k].raw) > scannerLimit {
+		last = ex.inside[len(ex.inside)-1]
+	}
+	for k := range lines {
+		if len(lines[k].raw) > scannerLimit {
+			ex.anyLong = true
+			if k <= last {
 				ex.longLine = true
 			}
 		}
@@ -563,7 +589,7 @@ func checkWindow(res *vlib.Result, id, mode string, rec *recording, journal []by
 	if err != nil || got == nil {
 		rr.Err = fmt.Sprint(err)
 		sig := "journal:count-error"
-		if ex.longLine {
+		if ex.anyLong {
 			sig = "journal:large-chunk-read-error"
 		}
 		res.Violatef(sig, rr, "Count over a journal written by ClusterWriter returned error %v (window %s)", err, w.desc)
@@ -589,7 +615,7 @@ func checkWindow(res *vlib.Result, id, mode string, rec *recording, journal []by
 		res.Obs("windows_bound_regime", 1)
 	}
 	if ex.hi > ex.lo {
-		res.Obs("windows_with_boundary_ambiguous_address", 1)
+		res.Obs("windows_with_optional_addresses", 1)
 	}
 	if within(got.Sum, ex.lo, ex.hi, ex.coll) {
 		if int(got.ChunkIncluded) != len(ex.inside) {
@@ -784,7 +810,7 @@ func smallCase(res *vlib.Result, root *vlib.Rand, i int) {
 		}
 		if r.Chance(nFlush, total+1) {
 			if r.Chance(1, 10) {
-				rec.w.failNext = true // the write fails: nothing reaches the journal, nothing may be lost
+				rec.w.failNext = true // the write fails: nothing reaches the journal
 				res.Obs("failed_writes_injected", 1)
 			}
 			rec.flush()
